@@ -1974,6 +1974,14 @@ static void case_neuro(vf_rng *r, int exact, int reconf)
        output must stay inside the limits and its state finite) - combined, half of the time, with output limits that exclude 0 */
     zero_w = vf_chance(r, 1, 6);
     if (zero_w) { n.w[0] = n.w[1] = n.w[2] = 0.0; VF_COUNT("neuro-all-weights-zero-histories"); }
+    /* weights near the bottom of the normal range together with a large K (seeded change C12-P: K / sum|w| formed first overflows although the documented
+       K * sum(w x) / sum|w| has no overflowing intermediate): weights scaled by the exact factor 2^-1010 (9e-308 .. 9e-303, all normal), no learning so that they stay there */
+    if (!exact && !zero_w && vf_chance(r, 1, 8))
+    {
+        n.k = vf_sign(r) * vf_logu(r, 2, 4);
+        for (i = 0; i < 3; ++i) { n.w[i] = ldexp(n.w[i], -1010); n.eta[i] = 0.0; }
+        VF_COUNT("neuro-tiny-weights-large-k-histories");
+    }
     gen_limits(r, ls, exact, R * fabs(n.k), &lim);
     if (zero_w && vf_chance(r, 1, 2))
     {
@@ -2173,7 +2181,8 @@ static void case_neuro(vf_rng *r, int exact, int reconf)
             {
                 q_t const delta = (q_t)c->k * num / den, dmag = qabs(c->k) * nmag / den;
                 q_t const acc = qsat((q_t)b4.pid.out + delta, lim.outmin, lim.outmax), noacc = qsat(delta, lim.outmin, lim.outmax);
-                q_t const tol = TOLK * (q_t)EPS * (qabs(b4.pid.out) + dmag) + 0x1p-1000Q;
+                /* last term: products w*x (and K times their sum) that fall below the normal range are rounded to a multiple of 2^-1074 by ANY evaluation in the working type */
+                q_t const tol = TOLK * (q_t)EPS * (qabs(b4.pid.out) + dmag) + 0x1p-1000Q + 8 * 0x1p-1074Q * (qabs(c->k) + 1) / den;
                 q_t const doc = NEURO_DOC_ACCUMULATES ? acc : noacc, other = NEURO_DOC_ACCUMULATES ? noacc : acc;
                 q_t const err = qabs((q_t)c->pid.out - doc);
                 VF_COUNT("neuro-output-onestep");
